@@ -818,7 +818,8 @@ func (c *CEnv) quant(e *CE) Value {
 // the bound variables; they are always true, so they strengthen whichever side helps the prover:
 // hypotheses of a goal, conclusions of an assumption. In mixed polarity they are dropped.
 func (c *CEnv) closeQuant(kind string, vars [][2]string, guards, side []*Term, body *Term) *Term {
-	if c.mixed > 0 {
+	if c.mixed > 0 || c.specMode {
+		// a spec function's body is used in both polarities
 		side = nil
 	}
 	if kind == "forall" {
